@@ -84,6 +84,14 @@ def run_job(job, seed, sink):
         hyp_drive(histories(job['max_ops'], job['min_ops']), job['n'], seed, sink)
 
 
+def heap_len(h):
+    """len(heap); Python itself raises ValueError when __len__ returns a negative number"""
+    try:
+        return len(h)
+    except ValueError:
+        return -1
+
+
 def check(case):
     out = Outcome()
     common.LOOPS.reset(200000 + 2000 * len(case['ops']))      # heap operations are tiny: keep hangs cheap
@@ -161,10 +169,10 @@ def check(case):
                     post = True
             elif name == 'len':
                 pass
-            if len(h) != len(live):
-                out.fail('len-disagrees', f"step {step} ({op}): len(heap) = {len(h)}, live items = {len(live)}")
+            if heap_len(h) != len(live):
+                out.fail('len-disagrees', f"step {step} ({op}): len(heap) = {heap_len(h)}, live items = {len(live)}")
                 return out
-            if bool(h) != bool(live):
+            if heap_len(h) >= 0 and bool(h) != bool(live):
                 out.fail('bool-disagrees', f"step {step} ({op}): bool(heap) = {bool(h)}, live items = {len(live)}")
                 return out
     # drain: everything left comes out in order
@@ -180,8 +188,8 @@ def check(case):
                 out.fail('pop-not-minimum', f"drain: pop() returned key {it[0]}, best live key is {best()}")
                 return out
             del live[idx]
-        if len(h) != 0 or bool(h):
-            out.fail('len-disagrees', f"after draining: len(heap) = {len(h)}")
+        if heap_len(h) != 0 or bool(h):
+            out.fail('len-disagrees', f"after draining: len(heap) = {heap_len(h)}")
     out.nontrivial = post
     out.label('max' if maxheap else 'min')
     if post:
